@@ -24,9 +24,18 @@ def coef_product(run, f):
     for st, ctx in walk(f.node):
         if isinstance(st, ast.Assign) and bind.target_role(f, st.targets[0]) == 'COEF':
             v = pair.strip_shape(st.value)
+            sides = None
             if isinstance(v, ast.BinOp) and isinstance(v.op, ast.Mult):
+                sides = (v.left, v.right)
+            elif isinstance(v, ast.Call) and norm(v.func).split('.')[-1] in ('outer', 'ger', 'kron'):
+                ops = list(v.args)
+                if len(ops) == 1 and isinstance(v.func, ast.Attribute):
+                    ops = [v.func.value] + ops
+                if len(ops) == 2:
+                    sides = tuple(ops)
+            if sides:
                 roots = set()
-                for side in (v.left, v.right):
+                for side in sides:
                     s = pair.strip_shape(side)
                     while isinstance(s, ast.Subscript):
                         s = s.value
@@ -57,6 +66,20 @@ def broadcast_layout(run, repo):
                 n += 1
                 run.check(ax == 0, 'R13.bcast', f, node, 'second-operand array %s must vary along the inner index '
                           '(unsqueeze(0))' % name)
+    # outer(a, b)[i, j] = a[i] * b[j] (also ger / kron of two vectors, flattened row-major): a is the outer index
+    for node in ast.walk(f.node):
+        if isinstance(node, ast.Call) and norm(node.func).split('.')[-1] in ('outer', 'ger', 'kron'):
+            ops = list(node.args)
+            if isinstance(node.func, ast.Attribute) and norm(node.func.value) not in ('torch', 'numpy', 'np'):
+                ops = [node.func.value] + ops
+            if len(ops) != 2:
+                continue
+            names = [o.id if isinstance(o, ast.Name) else None for o in ops]
+            if names[0] in first | second and names[1] in first | second:
+                n += 1
+                run.check(names[0] in first and names[1] in second, 'R13.bcast', f, node,
+                          'outer(a, b) varies a along the outer index and b along the inner one: the first operand\'s array must be a '
+                          '(found outer(%s, %s)), otherwise term (j1, j2) receives the value of another pair' % (names[0], names[1]))
     g1, g2 = g.posparams[0], g.posparams[1]
     for node in ast.walk(g.node):
         if isinstance(node, ast.Call) and isinstance(node.func, ast.Attribute) and node.func.attr == 'repeat' \
